@@ -20,6 +20,11 @@ fuzz_target!(|data: &[u8]| {
         Some(i) => (&data[..i], &data[i + 1..]),
         None => (data, &b"y = 1\n"[..]),
     };
+    // Eager top-level bindings can double a value per line (`y = $y$y`): expansion is exponential in the number of
+    // references by the language's own semantics, so such inputs only burn time.  Keep the count small.
+    if data.iter().filter(|&&c| c == b'$').count() > 16 {
+        return;
+    }
     let _ = std::fs::write("p", inc);
     let valid = std::str::from_utf8(main).is_ok() && std::str::from_utf8(inc).is_ok();
     let mut buf = main.to_vec();
